@@ -41,6 +41,9 @@ func genL2WCase(r *sim.Rng, tier string, tail bool) *WCase {
 			{Kind: "text", N: r.Range(0, 3000), Seed: r.Uint64()},
 		}}
 	}
+	if cfg.DictCap != 0 && cfg.DictCap <= 1<<16 && r.Chance(1, 7) && (cfg.Matcher == 0 || cfg.DictCap <= 8192) {
+		pl = dictAwarePayload(r, cfg.DictCap, cfg.BufSize)
+	}
 	n := pl.Len()
 	c := &WCase{Format: "lzma2", L2: &cfg, Payload: pl, Ops: genHistory(r, n, true, []int{65536, 65536 * 2, 2 << 20}, tail)}
 	c.RDict = sim.Pick(r, []int{4096, 4096, 8192, 1 << 16})
